@@ -435,6 +435,19 @@ fn get_bar_region<H: Hal, T, C: ConfigurationAccess>(
     device_function: DeviceFunction,
     struct_info: &VirtioCapabilityInfo,
 ) -> Result<NonNull<T>, VirtioPciError> {
+    // The upper half of a 64-bit BAR is not a BAR of its own: walk the BARs below the one named by
+    // the capability to check that it is the start of a BAR.
+    let mut bar_index = 0;
+    while bar_index < struct_info.bar {
+        let takes_two_entries = matches!(
+            root.bar_info(device_function, bar_index),
+            Ok(Some(info)) if info.takes_two_entries()
+        );
+        bar_index += if takes_two_entries { 2 } else { 1 };
+    }
+    if bar_index != struct_info.bar {
+        return Err(VirtioPciError::BarNotAllocated(struct_info.bar));
+    }
     let bar_info = root
         .bar_info(device_function, struct_info.bar)?
         .ok_or(VirtioPciError::BarNotAllocated(struct_info.bar))?;
